@@ -1161,4 +1161,33 @@ theorem statement_context_and_errors :
   · intro e; cases e <;> rfl
   · intro w h; simp [Wiring.ctxAtDriver, composeCtx, h]
 
+/-! ### round 5c: two transactions in flight on one connection pool -/
+
+open GoZero.C14.Conc in
+/-- **Two transactions in flight on one pool, every interleaving, every body length, every choice of the pool**:
+at every point each call has begun at most one transaction and ended it at most once, never before beginning it;
+the two open transactions never share a connection; no statement of a call ever runs on the other call's
+connection or outside its own transaction; and a call that is done has begun exactly one transaction and ended it
+exactly once. -/
+theorem concurrent_transactions_end_their_own (n : Bool → Nat) (sched : List (Bool × Nat)) :
+    let s := run n init sched
+    (∀ t, s.begins t ≤ 1 ∧ s.ends t ≤ s.begins t ∧ s.stray t = 0 ∧
+          (s.pc t = .done → s.begins t = 1 ∧ s.ends t = 1 ∧ s.conn t = none)) ∧
+    (s.conn true ≠ none → s.conn true ≠ s.conn false) := by
+  intro s
+  obtain ⟨h1, h2, h3⟩ := inv_run n sched init inv_init
+  refine ⟨?_, h3⟩
+  intro t
+  have ht := h1 t
+  have hs := h2 t
+  cases hpc : (run n init sched).pc t <;> rw [hpc] at ht <;> simp_all [s]
+
+/-- both calls get through when the schedule is long enough: an example interleaving -/
+def concExampleRun : Conc.St := Conc.run (fun t => if t then 2 else 1) Conc.init
+  [(true, 7), (false, 7), (false, 8), (true, 0), (false, 0), (true, 0), (false, 0), (true, 0)]
+
+open GoZero.C14.Conc in
+example : (concExampleRun.begins true, concExampleRun.ends true, concExampleRun.begins false, concExampleRun.ends false,
+    concExampleRun.pc true, concExampleRun.pc false, concExampleRun.stray true) = (1, 1, 1, 1, PC.done, PC.done, 0) := by decide
+
 end GoZero.C14.Props
